@@ -169,14 +169,20 @@ def lean_obligations(ctx, extra_targets=()):
     return ok and not bad and len(discharged) == len(names)
 
 
+_DRIVER_FRESH = False
+
+
 def run_driver(lines, jobs=NCPU, weights=None):
     """Pipe protocol lines to the model driver (several processes), keep order."""
     if not lines:
         return []
-    if not os.path.exists(DRIVER):
+    global _DRIVER_FRESH
+    if not _DRIVER_FRESH or not os.path.exists(DRIVER):
+        # once per run: the executable model must reflect this run's Generated.lean / model sources (no-op when unchanged)
         ok, log = build_driver()
         if not ok:
             raise RuntimeError("cannot build qdriver:\n" + log[-2000:])
+        _DRIVER_FRESH = True
     n = len(lines)
     wt = weights if weights is not None else [len(l) for l in lines]
     total = sum(wt)
